@@ -627,6 +627,13 @@ def check(prop, tier, seed):
                 props.append('C03')
         concerns = prop in props or (not props and fkey in prop_fns)
         if not concerns:
+            # An assertion (of a proof hint) or a loop invariant that carries ANOTHER property failed inside a function that
+            # also holds obligations of this property: Verus assumes a failed assertion for the rest of the body, so what it
+            # proved afterwards was proved under a fact that does not hold -- those obligations are not decided.
+            if fkey in prop_fns and f['kind'] == 'semantic' and ('assertion failed' in f['message'] or 'invariant not satisfied' in f['message']):
+                f = dict(f)
+                f['message'] = 'an assertion that carries another property (%s) failed inside %s; what follows it was proved under that assertion; ' % (', '.join(props), fkey) + f['message']
+                undecided_fns.append(f)
             continue
         nk = re.sub(r'\s+', '', str(fkey))
         # An assertion inside a proof hint (or a loop invariant) is a statement about a program point.  When the statements
